@@ -8,9 +8,9 @@ use renoir::{BatchMode, Replication};
 
 use crate::driver::{PropSpec, Tier};
 use crate::explore::{hash_of, Check, Fail, Scenario};
-use crate::kit::{erase, log_sink, probe, sink_rows, Layout, ScriptSource};
+use crate::kit::{erase, log_sink, probe, sink_rows, Layout, ScriptSource, DS};
 use crate::props::common::ORDERS3;
-use crate::rt::{EnvParams, Ev, Status};
+use crate::rt::{log, EnvParams, Ev, Status};
 
 #[derive(Clone, Copy, Debug, PartialEq, Eq)]
 enum Combine {
@@ -57,7 +57,15 @@ fn scenario_on(lk: LoopKind, comb: Combine, side_left: bool, input: Vec<i64>, si
         let side_stream = env.stream(ScriptSource::new(spread(&side_vals, p), Replication::Unlimited)).batch_mode(batch);
         macro_rules! body {
             () => {
-                move |s, _st| match (comb, side_left) {
+                move |s, st: renoir::IterationStateHandle<i64>| {
+                  // every element the body produces also reads the loop state: logged right after
+                  // the probe event of that element, so its round is known
+                  let read = move |x: i64| {
+                      let v = *st.get();
+                      log(Ev::Note("state-read", vec![v, x]));
+                      x
+                  };
+                  let combined: DS<i64> = match (comb, side_left) {
                     (Combine::Merge, false) => erase(probe(s.merge(side_stream), SIDE_PROBE)),
                     // the outside stream as the receiver of the operator
                     (Combine::Merge, true) => erase(probe(side_stream.merge(s), SIDE_PROBE)),
@@ -79,6 +87,8 @@ fn scenario_on(lk: LoopKind, comb: Combine, side_left: bool, input: Vec<i64>, si
                         ),
                         SIDE_PROBE,
                     )),
+                  };
+                  erase(combined.map(read))
                 }
             };
         }
@@ -132,9 +142,12 @@ fn scenario_on(lk: LoopKind, comb: Combine, side_left: bool, input: Vec<i64>, si
     let mut state = 0i64;
     let mut cur = input.clone();
     let mut per_round_outputs: Vec<Vec<i64>> = vec![];
+    // the loop state each round runs against
+    let mut states: Vec<i64> = vec![0];
     for _ in 0..rounds.max(1) {
         let out = step(&cur);
         state += out.iter().sum::<i64>();
+        states.push(state);
         let mut o = out.clone();
         o.sort();
         per_round_outputs.push(o);
@@ -163,12 +176,29 @@ fn scenario_on(lk: LoopKind, comb: Combine, side_left: bool, input: Vec<i64>, si
         // what the body produced in each round (all replicas together)
         let mut fars: BTreeMap<(u64, u64, u64), usize> = BTreeMap::new();
         let mut rounds_seen: BTreeMap<usize, Vec<i64>> = BTreeMap::new();
+        let mut last_probe: Option<(u64, u64, u64)> = None;
         for e in &r.log {
             if let Ev::Probe(SIDE_PROBE, c, k, _, pl) = e {
                 if *k == crate::kit::K_FAR {
                     *fars.entry(*c).or_insert(0) += 1;
                 } else if *k <= 1 {
                     rounds_seen.entry(fars.get(c).copied().unwrap_or(0)).or_default().push(pl[0]);
+                    last_probe = Some(*c);
+                }
+            }
+            if let Ev::Note("state-read", v) = e {
+                // the element the body is handling belongs to the round its replica is in: it
+                // must see the state that round runs against
+                if let Some(c) = last_probe.take() {
+                    let round = fars.get(&c).copied().unwrap_or(0);
+                    if let Some(exp) = states.get(round) {
+                        if *exp != v[0] {
+                            return Err(Fail::new(
+                                format!("c11-{tagk}-state-of-another-round"),
+                                format!("{d2}: in round {} replica {:?} handled element {} of the combined stream against loop state {}, that round's state is {exp} (states {:?})", round + 1, c, v[1], v[0], states),
+                            ));
+                        }
+                    }
                 }
             }
         }
@@ -237,6 +267,21 @@ fn build(tier: Tier) -> Vec<Scenario> {
                             }
                         }
                     }
+                }
+            }
+        }
+    }
+    // adaptive batching: the timed receive of the two-input Start may expire between two rounds
+    // (an early timer firing is a deviation)
+    {
+        let ad = BatchMode::adaptive(1024, std::time::Duration::from_millis(10));
+        for (lk, comb) in [(LoopKind::Replay, Combine::Merge), (LoopKind::Replay, Combine::JoinHash), (LoopKind::Iterate, Combine::Merge)] {
+            for side_left in [false, true] {
+                for p in [1u64, 2] {
+                    if tier == Tier::Quick && p == 2 && comb == Combine::JoinHash {
+                        continue;
+                    }
+                    out.push(scenario(lk, comb, side_left, vec![2, 5], vec![1, 2, 3], 3, p, ad, bound));
                 }
             }
         }
